@@ -185,7 +185,13 @@ func (x *ctx) validateAgainstReal(recs []execRec, n int) {
 		go func() {
 			defer func() { <-sem }()
 			rr := x.realStable(rec.cfg, rec.files, rec.argv)
-			if rr.Stdout == rec.out {
+			same := rr.Stdout == rec.out
+			for _, a := range rec.argv {
+				if a == "--define" { // records of --define form an unordered set (C05)
+					same = sortedLines(rr.Stdout) == sortedLines(rec.out)
+				}
+			}
+			if same {
 				ch <- res{true, ""}
 			} else {
 				ch <- res{false, fmt.Sprintf("argv=%v inproc=%q real=%q", rec.argv, head(rec.out, 200), head(rr.Stdout, 200))}
